@@ -752,6 +752,9 @@ fn run_reset(ctx: &Ctx) {
 
         let q = new_queries(&mut r, k % 16 == 0);
         let state = if use_seeded { L(vec![]) } else { t_state_now(&mut m, st.fill, &st.sr_defns) };
+        let pause_class = |sim: &Simulator| if sim.hit_halt() { 1 } else if sim.hit_breakpoint() { 2 } else { 0 };
+        let pause_before = pause_class(&m.sim);
+        let only_pc_bps = m.sim.breakpoints.iter().all(|b| matches!(b, Breakpoint::PC(_)));
         let kbl = r.chance(1, 5);
         let dsl = r.chance(1, 5);
         let res = {
@@ -815,6 +818,13 @@ fn run_reset(ctx: &Ctx) {
             let rest = t_rest(&mut m);
             let out = L(vec![words, rest, list(ireg_after.iter(), |(a, c)| L(vec![i(*a), i(*c)]))]);
             ctx.case_to(k, "sim.reset", &input, &out);
+            // the non-machine part of the simulator (model/Session.v): breakpoints kept, pause status as new
+            if only_pc_bps {
+                let t_bps = |v: &Vec<u16>| list(v.iter(), |a| L(vec![i(0), i(*a)]));
+                let fi = input.as_l().unwrap();
+                let sin = L(vec![fi[0].clone(), fi[1].clone(), fi[2].clone(), t_bps(&bps), i(pause_before)]);
+                ctx.case_to(k, "session.reset", &sin, &L(vec![t_bps(&bps2), i(pause_class(&m.sim)), i(m.sim.pc)]));
+            }
             if k < 1 { ctx.sample(format!("sim.reset {} -> {}", cut(&input.to_string(), 160), cut(&out.to_string(), 200))); }
         }
         // the devices really are still attached: a write to DDR reaches the buffer, KBSR sees a key
